@@ -10,8 +10,8 @@ from harness.framework import CaseTimeout, Suite
 PID = "C09"
 LEAN_MODS = ["SwcVerif.Props.C09", "SwcVerif.Props.C09Gen"]
 # Gen/AlgoViews.lean is regenerated on every run from node.py / path.py / tree.py / branch.py / compartment.py / swc.py (harness/algo_specs/70_views.py)
-TRANSLATE_ALGO = ["AlgoViews"]
-DRIVER_FILES = ["SwcVerif/Model/AlgoRunViews.lean", "SwcVerif/Model/PyViews.lean", "SwcVerif/Gen/AlgoViews.lean"]
+TRANSLATE_ALGO = ["AlgoViews", "AlgoHelpers"]
+DRIVER_FILES = ["SwcVerif/Model/AlgoRunViews.lean", "SwcVerif/Model/PyViews.lean", "SwcVerif/Gen/AlgoViews.lean", "SwcVerif/Model/AlgoRunHelpers.lean", "SwcVerif/Gen/AlgoHelpers.lean"]
 THEOREMS = [
     "C09.mkTree_wf", "C09.step_wf", "C09.run_wf", "C09.at_spec", "C09.view_reads_owner", "C09.reads_pure", "C09.node_write_through",
     "C09.write_then_view_read", "C09.copy_fresh", "C09.detach_fresh", "C09.write_frame", "C09.tree_segments", "C09.branch_segments",
@@ -102,6 +102,52 @@ def column(o, c, via="key"):
             return o.origin_id() if c == "id" else o.origin_pid()
         return getattr(o, c)()
     return o.get_ndata(getattr(o.names, c))
+
+
+def helper_ops(vw, j, objs, salt):
+    """T41: the object helpers `Path.__iter__`, `Path.get_node`, `Branch.detach`, `Compartment.detach` on the view `vw` (number j) of a history:
+    (token of the `ghelpers` op, expected output) pairs.  Nothing here changes the state of the history (the store of `itw` is undone)."""
+    import warnings
+    from swcgeom.core import Branch, Tree
+
+    def attempt(f):
+        try:
+            return "[" + ",".join(str(int(v)) for v in f()) + "]"
+        except IndexError:
+            return "E"
+    nm = vw.names
+    out = []
+    for c in ("id", "type"):
+        out.append((f"it:{j}:{c}", attempt(lambda: [nd[getattr(nm, c)] for nd in vw])))
+    own = vw.attach
+    oi = next((i for i, x in enumerate(objs) if x is own), None)
+    n = len(vw.idx)
+    if isinstance(own, Tree) and oi is not None and n:
+        # handles made BEFORE a store through the tree are read AFTER it: they must be live windows
+        row = int(vw.idx[salt % n])
+
+        def live():
+            hs = list(iter(vw))
+            old = int(own[row][nm.type])
+            own[row][nm.type] = 88
+            try:
+                return [h[nm.type] for h in hs]
+            finally:
+                own[row][nm.type] = old
+        out.append((f"itw:{j}:{row}:type:88", attempt(live)))
+    for k in (salt % (n + 1), -1 - (salt % (n + 1)), n + 1):
+        def gn(k=k):
+            with warnings.catch_warnings():
+                warnings.simplefilter("ignore")
+                return [vw.get_node(k)[nm.type]]
+        out.append((f"gn:{j}:{k}:type", attempt(gn)))
+    for c in ("id", "pid", "type", "x"):
+        out.append((f"bdt:{j}:{c}", attempt(lambda: Branch(vw.attach, vw.idx).detach().attach.get_ndata(getattr(nm, c)))))
+    if isinstance(own, Tree) and oi is not None:
+        jj = salt % max(1, own.number_of_nodes())
+        for c in ("id", "pid", "z"):
+            out.append((f"cdt:{oi}:{jj}:{c}", attempt(lambda: own.get_compartments()[jj].detach().attach.get_ndata(getattr(nm, c)))))
+    return out
 
 
 def tree_columns(t):
@@ -258,6 +304,7 @@ class History(Suite):
         outs = []
         alias = []
         dcontent = []
+        hmv = []       # T41: [index of an `mv` op, helper ops observed on the new view]
 
         def nodeget(node, c):
             return getattr(node, c) if via == "method" else node[getattr(node.names, c)]
@@ -294,6 +341,10 @@ class History(Suite):
                     column(objs[op[1]], op[3], via)[op[2]] = op[4]; outs.append("ok")
                 elif k == "mv":
                     views.append(View(objs[op[1]], np.array(op[2], dtype=np.int32))); outs.append(f"view{len(views) - 1}")
+                    try:
+                        hmv.append([len(outs) - 1, helper_ops(views[-1], len(views) - 1, objs, len(outs))])
+                    except Exception as e:      # anything unexpected is reported by the base protocol, not here
+                        hmv.append([len(outs) - 1, [("bad", type(e).__name__)]])
                 elif k == "vr":
                     outs.append([int(v) for v in column(views[op[1]], op[2], via)])
                 elif k == "vn":
@@ -339,12 +390,18 @@ class History(Suite):
                             got["pw_owner"] = objs.index(vw.attach) if any(vw.attach is x for x in objs) else None
                             if got["pw_owner"] is not None:
                                 got["pw_col"] = [int(v) for v in column(vw.attach, "type", via)]
+                            try:
+                                got["helpers"] = helper_ops(vw, j, objs, len(outs))
+                            except IndexError:
+                                raise
+                            except Exception as e:      # anything else is reported by the base protocol, not here
+                                got["helpers"] = [("bad", type(e).__name__)]
                         outs.append(got)
                     else:
                         outs.append("skip")
             except IndexError:
                 outs.append("E")
-        return {"outs": outs, "alias": alias, "dcontent": dcontent}
+        return {"outs": outs, "alias": alias, "dcontent": dcontent, "hmv": hmv}
 
     def lines(self, case, res):
         if "exc" in res:
@@ -385,8 +442,9 @@ class History(Suite):
                             want = "E"
                         out.append((f"gslice n={n} a={N(op[2])} b={N(op[3])} c={N(c)}", want))
         # (the base ops, in order, interleaved with the extra ones above)
-        gtoks, gexp, bi = [], [], 0
-        for op, o in zip(case["ops"], res["outs"]):
+        gtoks, gexp, bi, htoks = [], [], 0, []
+        hmv = {i: h for i, h in res.get("hmv") or []}
+        for oi, (op, o) in enumerate(zip(case["ops"], res["outs"])):
             if op[0] == "sl":
                 if isinstance(o, dict):
                     sl = ":".join(N(x) for x in op[2:5])
@@ -396,10 +454,22 @@ class History(Suite):
                         gtoks.append(f"pw:{o['view']}:{o['pw'][0]}:type:77"); gexp.append(o["pw"][1])
                         if o.get("pw_owner") is not None:
                             gtoks.append(f"r:{o['pw_owner']}:type"); gexp.append("[" + ",".join(str(v) for v in o["pw_col"]) + "]")
+                        for tk, ex in o.get("helpers") or []:
+                            htoks.append((len(gtoks), tk, ex))
                 continue
             gtoks.append(toks[bi]); gexp.append(exp[bi]); bi += 1
+            for tk, ex in hmv.get(oi) or []:
+                htoks.append((len(gtoks), tk, ex))
         if gtoks:
             out.append(("gviews " + a + " ops=" + ";".join(gtoks), " ".join(gexp)))
+        if htoks:
+            # the same history with the helper ops of Gen/AlgoHelpers.lean (T41) placed where they were observed
+            ht, he, at = [], [], 0
+            for pos, tk, ex in htoks:
+                ht += gtoks[at:pos]; he += gexp[at:pos]; at = pos
+                ht.append(tk); he.append(ex)
+            ht += gtoks[at:]; he += gexp[at:]
+            out.append(("ghelpers " + a + " ops=" + ";".join(ht), " ".join(he)))
         return out
 
     def oracle(self, case, res):
